@@ -18,5 +18,6 @@ import RpylibModel.Proofs.C15
 import RpylibModel.Proofs.C16
 import RpylibModel.Proofs.C17
 import RpylibModel.Proofs.C18
+import RpylibModel.Proofs.C19
 import RpylibModel.Proofs.C20
 import RpylibModel.ProofsGen.C20Table
